@@ -232,6 +232,21 @@ func streamHview() {
 			s.cfg.Exts = append([]Ext{{Kind: "custom", Oid: "1.2.3.78", Raw: "!empty", Crit: 1}}, s.cfg.Exts...)
 			return true
 		})
+		// the same raw value under another extension kind: another OID in the certificate (F14)
+		{
+			a, b := base, base
+			a.cfg.Exts = append(append([]Ext{}, base.cfg.Exts...), Ext{Kind: "ku", Raw: "!binary:AwIBBg==", Crit: -1})
+			b.cfg.Exts = append(append([]Ext{}, base.cfg.Exts...), Ext{Kind: "eku", Raw: "!binary:AwIBBg==", Crit: -1})
+			emitPair(tag+"-ext-kind-swap", a, b, true)
+		}
+		// an end date or a duration without start date is certificate relevant although the start is "now" (F13)
+		{
+			a, b := base, base
+			a.cfg.Validity, b.cfg.Validity = Validity{Until: "2061-01-01"}, Validity{Until: "2062-02-02"}
+			emitPair(tag+"-until-without-from", a, b, true)
+			a.cfg.Validity, b.cfg.Validity = Validity{Duration: "3y"}, Validity{Duration: "4y"}
+			emitPair(tag+"-duration-without-from", a, b, true)
+		}
 		// a second extension with an OID that is already present, and an edit of the first of two equal-OID extensions
 		edit("ext-duplicate-oid", func(s *hside) bool {
 			s.cfg.Exts = append(s.cfg.Exts, Ext{Kind: "custom", Oid: "1.2.3.99", Raw: "!null", Crit: -1}, Ext{Kind: "custom", Oid: "1.2.3.99", Raw: "!empty", Crit: -1})
